@@ -8,7 +8,7 @@
     a child does not change without the shell being told; the still unreported
     changes are exactly the statuses not yet delivered). *)
 From Coq Require Import ZArith List Bool Arith Lia.
-From Cicada Require Import Model.Jobs Model.Term Model.WaitTerm Proofs.JobsInv.
+From Cicada Require Import Model.Jobs Model.Term Model.WaitTerm Proofs.JobsInv Proofs.TermSim.
 Import ListNotations.
 Local Open Scope Z_scope.
 
@@ -361,4 +361,313 @@ Proof.
     + destruct (all_gone (procs kt)); cbn [wait_o].
       * apply finish_st_eq. exact E.
       * repeat split; apply E.
+Qed.
+
+(** ====================================================================
+    Round 9, second part.
+    (3) K4 with a set of members reaped BEFORE this wait ([gone0]): fg on a job
+        one of whose members was reaped earlier on the same line. *)
+Definition K4_oracle_g (gone0 : Z -> Prop) (pids : list Z) (q : list reply) : Prop :=
+  forall evs1 post, q = map RStatus evs1 ++ REchild :: post ->
+  forall p, In p pids -> ended_in evs1 p \/ gone0 p.
+
+Lemma wait_returns_settled_g : forall (gone0 : Z -> Prop) c fuel q kk gid pids v rest ow m g s' st left,
+  K4_oracle_g gone0 pids q ->
+  wait_fg_o c fuel q kk gid pids v rest ow m g = WReturned s' st left ->
+  exists used, q = used ++ left /\
+    gh s' = g ++ [Wait gid pids (statuses used)] /\
+    (forall p, In p pids -> settled_in (statuses used) p \/ gone0 p) /\
+    (pids = [] -> st = 0) /\
+    (forall e, last_of (last pids 0) (statuses used) = Some e -> is_cont e = false -> st = ev_status e).
+Proof.
+  intros gone0 c fuel q kk gid pids v rest ow m g s' st left K H.
+  destruct pids as [|p0 ps] eqn:EP.
+  - cbn [wait_fg_o] in H. injection H as <- <- <-.
+    exists []. cbn [statuses app].
+    destruct (finish_facts c kk v ow m (g ++ [Wait gid [] []]) rest) as (_ & _ & _ & F4 & _).
+    repeat split; auto. intros p []. intros e X. discriminate X.
+  - rewrite <- EP in *. assert (NE : pids <> []) by (rewrite EP; discriminate).
+    assert (H' : wait_o c fuel q kk gid pids [] v rest ow m g [] 0 = WReturned s' st left).
+    { rewrite <- H. rewrite EP. reflexivity. }
+    destruct (wait_o_returned c gid pids v rest ow m g NE q fuel kk [] [] 0 s' st left
+                (Inv_init pids) eq_refl H') as (used & Q & D & T & _ & _ & _ & O4 & _).
+    cbn [app] in *.
+    exists used. repeat split; auto; [|congruence|].
+    + destruct D as [(evs1 & U & A)|(evs1 & U)].
+      * rewrite U, statuses_map. intros p Hp. left. auto.
+      * intros p Hp. rewrite U, statuses_app, statuses_map. cbn [statuses]. rewrite app_nil_r.
+        destruct (K evs1 left) with (p := p) as [E|G]; auto.
+        -- rewrite Q, U, <- app_assoc. reflexivity.
+        -- left. apply ended_settled. exact E.
+    + intros e L C. rewrite T. unfold cur_status. rewrite (last_nc_of _ _ _ L C). reflexivity.
+Qed.
+
+(** (1) Term.v's own kernel model satisfies K4 and H1: the statuses [next_status]
+    hands out are truthful about [procs], and ECHILD ([all_gone]) comes only when
+    every process is reaped. *)
+Definition truthful (e : ev) (pr : proc) : Prop :=
+  match e with
+  | Exited _ _ | Signaled _ _ => pst pr = PGone
+  | StoppedE _ _ => pst pr = PStop
+  | Continued _ => pst pr = PRun
+  end.
+
+(** every process with pid [p] (if any) has been reaped *)
+Definition gone0 (ps : list proc) (p : Z) : Prop := forall pr, In pr ps -> ppid pr = p -> gone pr = true.
+
+Lemma next_status_shape : forall ps e ps', next_status ps = Some (e, ps') ->
+  exists a pr pr' b, ps = a ++ pr :: b /\ ps' = a ++ pr' :: b /\
+    ppid pr = ev_pid e /\ ppid pr' = ev_pid e /\ truthful e pr' /\ gone pr = false.
+Proof.
+  induction ps as [|p r IH]; intros e ps' H; [discriminate H|].
+  cbn [next_status] in H.
+  assert (SK : match next_status r with Some (e0, r') => Some (e0, p :: r') | None => None end = Some (e, ps') ->
+    exists a pr pr' b, p :: r = a ++ pr :: b /\ ps' = a ++ pr' :: b /\
+      ppid pr = ev_pid e /\ ppid pr' = ev_pid e /\ truthful e pr' /\ gone pr = false).
+  { destruct (next_status r) as [[e0 r0]|]; [|discriminate]. intros X. injection X as <- <-.
+    destruct (IH e0 r0 eq_refl) as (a & pr & pr' & b & A & B & C).
+    exists (p :: a), pr, pr', b. split; [cbn; f_equal; exact A|]. split; [cbn; f_equal; exact B|exact C]. }
+  destruct (pst p) eqn:S.
+  - destruct (pnote p) eqn:N; try (apply SK; exact H).
+    injection H as <- <-. exists [], p, (mkproc (ppid p) (ppgid p) PRun NNone (ppend p) (pblk p)), r.
+    cbn. unfold gone. rewrite S. repeat split.
+  - destruct (pnote p) eqn:N; try (apply SK; exact H).
+    injection H as <- <-. exists [], p, (mkproc (ppid p) (ppgid p) PStop NNone (ppend p) (pblk p)), r.
+    cbn. unfold gone. rewrite S. repeat split.
+  - injection H as <- <-. exists [], p, (mkproc (ppid p) (ppgid p) PGone NNone None (pblk p)), r.
+    unfold gone. rewrite S. destruct signaled; cbn; repeat split.
+  - apply SK; exact H.
+Qed.
+
+Definition TInv (ps0 : list proc) (evs : list ev) (ps : list proc) : Prop :=
+  (forall p e, last_of p evs = Some e -> exists pr, In pr ps /\ ppid pr = p /\ truthful e pr) /\
+  (forall p, gone0 ps p -> ended_in evs p \/ gone0 ps0 p).
+
+Lemma TInv_init : forall ps0, TInv ps0 [] ps0.
+Proof. intros. split; [intros p e H; discriminate H|]. intros p G. right. exact G. Qed.
+
+Lemma in_swap : forall (a b : list proc) x y z, In z (a ++ x :: b) -> z <> x -> In z (a ++ y :: b).
+Proof.
+  intros a b x y z H N. apply in_app_or in H. apply in_or_app.
+  destruct H as [H|[H|H]]; [left; exact H|congruence|right; right; exact H].
+Qed.
+
+Lemma ended_in_snoc_other : forall evs e p, ev_pid e <> p -> ended_in evs p -> ended_in (evs ++ [e]) p.
+Proof.
+  intros evs e p N (x & L & E). exists x. rewrite last_of_snoc.
+  destruct (Z.eqb_spec (ev_pid e) p); [contradiction|auto].
+Qed.
+
+Lemma TInv_step : forall ps0 evs ps e ps', next_status ps = Some (e, ps') ->
+  TInv ps0 evs ps -> TInv ps0 (evs ++ [e]) ps'.
+Proof.
+  intros ps0 evs ps e ps' H [T1 T2].
+  destruct (next_status_shape ps e ps' H) as (a & pr & pr' & b & -> & -> & P1 & P2 & TR & G).
+  split.
+  - intros p e1 L. rewrite last_of_snoc in L. destruct (Z.eqb_spec (ev_pid e) p) as [E|E].
+    + injection L as <-. exists pr'. split; [apply in_or_app; right; left; reflexivity|]. split; [congruence|exact TR].
+    + destruct (T1 p e1 L) as (x & I & Px & Tx). exists x. split; [|auto].
+      apply (in_swap a b pr pr' x I). intros ->. congruence.
+  - intros p G'. destruct (Z.eq_dec (ev_pid e) p) as [E|E].
+    + left. exists e. rewrite last_of_snoc. rewrite <- E, Z.eqb_refl. split; [reflexivity|].
+      assert (X : gone pr' = true).
+      { apply G'; [apply in_or_app; right; left; reflexivity|congruence]. }
+      unfold gone in X. destruct e; cbn in TR; rewrite TR in X; try discriminate X; reflexivity.
+    + assert (G0 : gone0 (a ++ pr :: b) p).
+      { intros x I Px. apply G'; [|exact Px]. apply (in_swap a b pr pr' x I). intros ->. congruence. }
+      destruct (T2 p G0) as [X|X]; [left; apply ended_in_snoc_other; assumption|right; exact X].
+Qed.
+
+(** the processes after [n] statuses have been handed out *)
+Fixpoint kafter (n : nat) (ps : list proc) : list proc :=
+  match n with
+  | O => ps
+  | S n' => match next_status ps with Some (_, ps') => kafter n' ps' | None => ps end
+  end.
+
+Lemma kreplies_truth : forall evs1 fuel ps post ps0 evs0,
+  kreplies fuel ps = map RStatus evs1 ++ post -> TInv ps0 evs0 ps ->
+  TInv ps0 (evs0 ++ evs1) (kafter (length evs1) ps) /\
+  exists f1, kreplies f1 (kafter (length evs1) ps) = post.
+Proof.
+  induction evs1 as [|e evs1 IH]; intros fuel ps post ps0 evs0 H T.
+  - cbn. rewrite app_nil_r. split; [exact T|]. exists fuel. exact H.
+  - destruct fuel as [|f]; [discriminate H|]. cbn [kreplies map app] in H. cbn [length kafter].
+    destruct (next_status ps) as [[e0 ps']|] eqn:N.
+    + injection H as -> H.
+      destruct (IH f ps' post ps0 (evs0 ++ [e]) H (TInv_step _ _ _ _ _ N T)) as [A B].
+      rewrite snoc_app in A. split; assumption.
+    + destruct (all_gone ps); discriminate H.
+Qed.
+
+Lemma kreplies_echild : forall f ps post, kreplies f ps = REchild :: post -> forall p, gone0 ps p.
+Proof.
+  intros f ps post H p pr I _. destruct f as [|f]; [discriminate H|]. cbn [kreplies] in H.
+  destruct (next_status ps) as [[e0 ps']|]; [discriminate H|].
+  destruct (all_gone ps) eqn:A; [|discriminate H].
+  unfold all_gone in A. rewrite forallb_forall in A. auto.
+Qed.
+
+Lemma kreplies_K4 : forall fuel ps0 pids, K4_oracle_g (gone0 ps0) pids (kreplies fuel ps0).
+Proof.
+  intros fuel ps0 pids evs1 post H p _.
+  destruct (kreplies_truth evs1 fuel ps0 (REchild :: post) ps0 [] H (TInv_init ps0)) as [[_ T2] [f1 E]].
+  cbn [app] in T2. apply T2. apply (kreplies_echild f1 _ post E).
+Qed.
+
+(** what a blocked oracle loop hands back is a Waiting state *)
+Lemma wait_o_blocked : forall c gid pids v rest ow m g q fuel kk w we status s1 st1,
+  wait_o c fuel q kk gid pids w v rest ow m g we status = WBlocked s1 st1 ->
+  exists kk1 w1 we1, s1 = waiting_st kk1 gid pids w1 v rest ow m g we1.
+Proof.
+  intros c gid pids v rest ow m g. induction q as [|r q IH]; intros fuel kk w we status s1 st1 H;
+    (destruct fuel as [|f]; [discriminate H|]); cbn [wait_o] in H.
+  - injection H as <- _. eauto.
+  - destruct r as [e|]; [|discriminate H].
+    destruct (wait_body kk gid pids w e) as [k' w'].
+    destruct (negb (is_cont e) && (length pids <=? length w')%nat); [discriminate H|].
+    eapply IH. exact H.
+Qed.
+
+(** [Term.settle] that returned: the statuses it consumed are a prefix of the
+    kernel's answers, they are in the ghost Wait, and [procs] afterwards are the
+    kernel's processes after exactly those statuses *)
+Lemma settle_returned : forall c gid pids v rest ow m g fuel kt w we,
+  md (settle c fuel (waiting_st kt gid pids w v rest ow m g we)) = Between rest ->
+  exists evs1 post,
+    kreplies fuel (procs kt) = map RStatus evs1 ++ post /\
+    gh (settle c fuel (waiting_st kt gid pids w v rest ow m g we)) = g ++ [Wait gid pids (we ++ evs1)] /\
+    procs (k (settle c fuel (waiting_st kt gid pids w v rest ow m g we))) = kafter (length evs1) (procs kt).
+Proof.
+  intros c gid pids v rest ow m g. induction fuel as [|f IH]; intros kt w we H.
+  - discriminate H.
+  - revert H. cbn [kreplies settle waiting_st md k owner smask gh wevs].
+    destruct (next_status (procs kt)) as [[e ps]|] eqn:N.
+    + pose proof (wait_body_procs (set_procs kt ps) gid pids w e) as P.
+      destruct (wait_body (set_procs kt ps) gid pids w e) as [k2 w2].
+      cbn [fst set_procs procs] in P.
+      destruct (negb (is_cont e) && (length pids <=? length w2)%nat).
+      * intros _. destruct (finish_facts c k2 v ow m (g ++ [Wait gid pids (we ++ [e])]) rest) as (_ & _ & _ & F4 & F5).
+        exists [e], (kreplies f ps). cbn [map app length kafter]. rewrite N, F4, F5. auto.
+      * intros H. destruct (IH k2 w2 (we ++ [e]) H) as (evs1 & post & A & B & C).
+        exists (e :: evs1), post. cbn [map app length kafter]. rewrite N. rewrite P in A, C.
+        rewrite snoc_app in B. rewrite A. auto.
+    + destruct (all_gone (procs kt)).
+      * intros _. destruct (finish_facts c kt v ow m (g ++ [Wait gid pids we]) rest) as (_ & _ & _ & F4 & F5).
+        exists [], [REchild]. cbn [map app length kafter]. rewrite app_nil_r, F4, F5. auto.
+      * intros H. discriminate H.
+Qed.
+
+(** the hypothesis-free corollary about [Term.settle] on a wait just entered:
+    [C07_wait_returns_settled] (with [K4_oracle_g]) composed with
+    [settle_is_wait_o], K4 and H1 being PROVED for Term.v's kernel. *)
+Lemma settle_returns_settled : forall c gid pids v rest ow m g fuel kt,
+  pids <> [] ->
+  let s' := settle c fuel (waiting_st kt gid pids [] v rest ow m g []) in
+  md s' = Between rest ->
+  owner s' = (if back v then c_sh c else ow) /\
+  exists evs, gh s' = g ++ [Wait gid pids evs] /\
+    forall p, In p pids ->
+      (settled_in evs p \/ gone0 (procs kt) p) /\
+      (gone0 (procs kt) p \/
+       exists pr, In pr (procs (k s')) /\ ppid pr = p /\ (pst pr = PGone \/ pst pr = PStop)).
+Proof.
+  intros c gid pids v rest ow m g fuel kt NE s' M.
+  pose proof (settle_is_wait_o c gid pids v rest ow m g fuel kt kt [] [] 0 (conj eq_refl eq_refl)) as L.
+  fold s' in L.
+  destruct (wait_o c fuel (kreplies fuel (procs kt)) kt gid pids [] v rest ow m g [] 0) as [s1 st left|s1 st|] eqn:W.
+  - destruct L as (_ & L2 & L3 & _ & L5 & _).
+    assert (W' : wait_fg_o c fuel (kreplies fuel (procs kt)) kt gid pids v rest ow m g = WReturned s1 st left).
+    { rewrite <- W. destruct pids; [congruence|reflexivity]. }
+    destruct (wait_returns_settled_g (gone0 (procs kt)) _ _ _ _ _ _ _ _ _ _ _ _ _ _
+                (kreplies_K4 fuel (procs kt) pids) W') as (used & Q & G & A & _).
+    destruct (wait_gives_back_terminal _ _ _ _ _ _ _ _ _ _ _ _ _ _ W') as (O & _).
+    split; [congruence|].
+    destruct (settle_returned c gid pids v rest ow m g fuel kt [] [] M) as (evs1 & post & KR & GH & PR).
+    fold s' in GH, PR. cbn [app] in GH.
+    assert (EV : statuses used = evs1).
+    { rewrite <- L5, G in GH. apply app_inv_head in GH. injection GH as GH. exact GH. }
+    rewrite EV in A. exists evs1. split; [exact GH|].
+    intros p Hp. split; [apply A; exact Hp|].
+    destruct (A p Hp) as [(e & LO & C)|G0]; [|left; exact G0]. right.
+    destruct (kreplies_truth evs1 fuel (procs kt) post (procs kt) [] KR (TInv_init _)) as [[T1 _] _].
+    cbn [app] in T1. destruct (T1 p e LO) as (pr & I & Pp & TR).
+    exists pr. rewrite PR. split; [exact I|]. split; [exact Pp|].
+    destruct e; cbn in TR, C; auto. discriminate C.
+  - destruct (wait_o_blocked _ _ _ _ _ _ _ _ _ _ _ _ _ _ _ _ W) as (kk1 & w1 & we1 & ->).
+    destruct L as (_ & L2 & _). cbn in L2. rewrite M in L2. discriminate L2.
+  - destruct L as (k1 & w1 & we1 & L). rewrite L in M. discriminate M.
+Qed.
+
+(** (2) the oracle loop and C06's [Jobs.wait_loop] are one function: on the same
+    statuses, from the same shell value, settled set and status, they return at
+    the same status with the same shell (job table + parked maps), the same
+    [cmd_result.status], the same statuses left; an exhausted list is
+    [w_blocked = true] there and [WBlocked] here. *)
+Definition same_result (r : wres) (o : wout) : Prop :=
+  match o with
+  | WReturned s' st lft =>
+      w_sh r = shl (k s') /\ w_status r = st /\ w_blocked r = false /\ lft = map RStatus (w_left r)
+  | WBlocked s1 st =>
+      w_sh r = shl (k s1) /\ w_status r = st /\ w_blocked r = true /\ w_left r = []
+  | WOutOfFuel => False
+  end.
+
+Lemma wait_o_is_wait_loop : forall c gid pids v rest ow m g evs fuel kk w we status,
+  (length evs < fuel)%nat ->
+  same_result (Jobs.wait_loop evs (shl kk) gid pids (last pids 0) (length pids) w status)
+              (wait_o c fuel (map RStatus evs) kk gid pids w v rest ow m g we status).
+Proof.
+  intros c gid pids v rest ow m g. induction evs as [|e evs IH]; intros fuel kk w we status L;
+    (destruct fuel as [|f]; [inversion L|]).
+  - cbn. repeat split.
+  - rewrite wait_loop_cons. cbn [map wait_o]. unfold wait_body.
+    destruct (wait_one (shl kk) gid pids w e) as [s1 w1].
+    cbn [length] in L.
+    destruct (is_cont e); cbn [negb andb].
+    + apply (IH f (mkcore (procs kk) s1 (outs kk ++ wait_report (shl kk) gid pids e))). lia.
+    + destruct (length pids <=? length w1)%nat.
+      * destruct (finish_facts c (mkcore (procs kk) s1 (outs kk ++ wait_report (shl kk) gid pids e)) v ow m
+                   (g ++ [Wait gid pids (we ++ [e])]) rest) as (_ & _ & _ & _ & F5).
+        cbn. rewrite F5. repeat split.
+      * apply (IH f (mkcore (procs kk) s1 (outs kk ++ wait_report (shl kk) gid pids e))). lia.
+Qed.
+
+Lemma wait_fg_o_is_wait_fg_job : forall c gid pids v rest ow m g evs fuel kk,
+  (length evs < fuel)%nat ->
+  same_result (Jobs.wait_fg_job (shl kk) gid pids evs)
+              (wait_fg_o c fuel (map RStatus evs) kk gid pids v rest ow m g).
+Proof.
+  intros. destruct pids as [|p0 ps] eqn:EP.
+  - cbn [Jobs.wait_fg_job wait_fg_o].
+    destruct (finish_facts c kk v ow m (g ++ [Wait gid [] []]) rest) as (_ & _ & _ & _ & F5).
+    cbn. rewrite F5. repeat split.
+  - unfold Jobs.wait_fg_job, wait_fg_o. rewrite <- EP. apply wait_o_is_wait_loop. assumption.
+Qed.
+
+(** C06's model has no ECHILD answer: running out of statuses there
+    ([w_blocked = true]) is what the injection hook turns into ECHILD. So: where
+    [Jobs.wait_loop] ends blocked, the oracle loop followed by ECHILD returns
+    with that shell and that status. *)
+Lemma wait_o_echild_is_blocked : forall c gid pids v rest ow m g evs fuel kk w we status post,
+  (length evs < fuel)%nat ->
+  w_blocked (Jobs.wait_loop evs (shl kk) gid pids (last pids 0) (length pids) w status) = true ->
+  exists s',
+    wait_o c fuel (map RStatus evs ++ REchild :: post) kk gid pids w v rest ow m g we status =
+      WReturned s' (w_status (Jobs.wait_loop evs (shl kk) gid pids (last pids 0) (length pids) w status)) post /\
+    shl (k s') = w_sh (Jobs.wait_loop evs (shl kk) gid pids (last pids 0) (length pids) w status).
+Proof.
+  intros c gid pids v rest ow m g. induction evs as [|e evs IH]; intros fuel kk w we status post L;
+    (destruct fuel as [|f]; [inversion L|]).
+  - intros _. cbn [map app wait_o Jobs.wait_loop w_status w_sh].
+    eexists. split; [reflexivity|].
+    destruct (finish_facts c kk v ow m (g ++ [Wait gid pids we]) rest) as (_ & _ & _ & _ & F5). rewrite F5. reflexivity.
+  - rewrite wait_loop_cons. cbn [map app wait_o]. unfold wait_body.
+    destruct (wait_one (shl kk) gid pids w e) as [s1 w1].
+    cbn [length] in L.
+    destruct (is_cont e); cbn [negb andb].
+    + apply (IH f (mkcore (procs kk) s1 (outs kk ++ wait_report (shl kk) gid pids e))). lia.
+    + destruct (length pids <=? length w1)%nat.
+      * intros B. discriminate B.
+      * apply (IH f (mkcore (procs kk) s1 (outs kk ++ wait_report (shl kk) gid pids e))). lia.
 Qed.
